@@ -188,6 +188,24 @@ def label_selection(ctx, n_points, cover, edges):
                 check_group('with_labels(%r)' % sub[0], lg.with_labels(sub[0]), sub)
                 if rest:
                     check_group('without_labels(%r)' % sub[0], lg.without_labels(sub[0]), rest)
+    # requests listed in another order than the group's own: whatever order the
+    # result reports its labels in, every label still selects exactly its own points
+    for perm in itertools.permutations(names):
+        if list(perm) == names or len(perm) < 2:
+            continue
+        for r in range(2, len(perm) + 1):
+            req = list(perm[:r])
+            if req == [nm for nm in names if nm in req]:
+                continue
+            got = lg.with_labels(req)
+            keep, idx, sub_adj = expect(req)
+            tag = 'with_labels%s(permuted)' % req
+            ctx.check_true(tag + '/same-label-set', sorted(got.labels) == sorted(req), str(got.labels))
+            ctx.check_eq(tag + '/exactly-the-points-under-the-labels', got.points, np.asarray(pts)[idx])
+            for nm in req:
+                ctx.check_true(tag + '/label[%s]-selects-its-own-points' % nm,
+                               nm in got._labels_to_masks and np.array_equal(got._labels_to_masks[nm], masks[nm][keep]))
+                ctx.check_eq(tag + '/get_label[%s]' % nm, got.get_label(nm).points, np.asarray(pts)[np.nonzero(masks[nm])[0]])
     for nm in names:
         keep, idx, sub_adj = expect([nm])
         one = lg.get_label(nm)
